@@ -1693,9 +1693,10 @@ def do_conf_str(src: str, data: T.List[str], confdata: 'ConfigurationData',
 
 def _keep_line_ending(template_line: str, define_line: str) -> str:
     # The define helpers always terminate their result with '\n'; give it
-    # the line ending the template line had (CRLF, or none at end of file).
+    # the line ending the template line had (e.g. CRLF). A template line
+    # without any line ending still gets the '\n'.
     eol = template_line[len(template_line.rstrip('\r\n')):]
-    if define_line.endswith('\n') and eol != '\n':
+    if define_line.endswith('\n') and eol not in {'', '\n'}:
         return define_line[:-1] + eol
     return define_line
 
